@@ -535,8 +535,8 @@ Fixpoint drop_slashes_rev (r : str) : str :=
   end.
 Definition strip_trailing_slashes (s : str) : str := rev (drop_slashes_rev (rev s)).
 
-Definition apply_fixup (fs : fsys) (cwd : list name) (f : fixup) : fsys :=
-  let name := parse (strip_trailing_slashes (fx_name f)) in
+(* the body of the fix-up loop for one entry whose (already stripped) name parses to [name] *)
+Definition apply_fixup_at (fs : fsys) (cwd : list name) (name : pth) (f : fixup) : fsys :=
   if negb (fx_mode_todo f) && negb (fx_times_todo f) then fs    (* p->fixup == 0 *)
   else
     match sys_open_nofollow fs cwd name (fx_isdir f) with       (* O_NOFOLLOW [| O_DIRECTORY] *)
@@ -557,6 +557,9 @@ Definition apply_fixup (fs : fsys) (cwd : list name) (f : fixup) : fsys :=
         else fs
     end.
 
+Definition apply_fixup (fs : fsys) (cwd : list name) (f : fixup) : fsys :=
+  apply_fixup_at fs cwd (parse (strip_trailing_slashes (fx_name f))) f.
+
 Definition close_fixups (st : pstate) : pstate :=
   let l := sort_fx (length (st_fixups st)) (st_fixups st) in
   mkSt (fold_left (fun fs f => apply_fixup fs (st_cwd st) f) l (st_fs st)) (st_cwd st) (st_umask st) [].
@@ -574,3 +577,27 @@ Fixpoint run_entries (fl : N) (st : pstate) (es : list entry) : list (status * s
 
 Definition run_history (fl : N) (st : pstate) (es : list entry) : list (status * status) * pstate :=
   match run_entries fl st es with (l, st1) => (l, close_fixups st1) end.
+
+(* ------------------------------------------------------------------------------------------ *)
+(* The close loop of the PROPOSED FIX (fixes/C04-fixup-intermediate-symlink.diff): with
+   SECURE_SYMLINKS the fix-up name is first cleaned (cleanup_pathname_fsobj with the handle's
+   flags) and walked by check_symlinks_fsobj(name, SECURE_SYMLINKS, checking_linkname = 1), which
+   removes nothing; the fix-up is skipped unless both succeed, and is applied to the cleaned name. *)
+Definition apply_fixup_checked (fl : N) (fs : fsys) (cwd : list name) (f : fixup) : fsys :=
+  if has fl EXTRACT_SECURE_SYMLINKS then
+    match cleanup_pathname fl (strip_trailing_slashes (fx_name f)) with
+    | ClOk qn =>
+        match check_symlinks EXTRACT_SECURE_SYMLINKS true fs cwd (parse qn) with
+        | (SOk, fs1) => apply_fixup_at fs1 cwd (parse qn) f
+        | (_, fs1) => fs1
+        end
+    | _ => fs
+    end
+  else apply_fixup fs cwd f.
+
+Definition close_fixups_checked (fl : N) (st : pstate) : pstate :=
+  let l := sort_fx (length (st_fixups st)) (st_fixups st) in
+  mkSt (fold_left (fun fs f => apply_fixup_checked fl fs (st_cwd st) f) l (st_fs st)) (st_cwd st) (st_umask st) [].
+
+Definition run_history_checked (fl : N) (st : pstate) (es : list entry) : list (status * status) * pstate :=
+  match run_entries fl st es with (l, st1) => (l, close_fixups_checked fl st1) end.
